@@ -59,7 +59,70 @@ type caseSpec struct {
 	RecvDF  bool      `json:"recv_dataframe,omitempty"`
 	CloseAH bool      `json:"close_after_handler,omitempty"`
 	Policy  int       `json:"policy,omitempty"`
-	Seg     wsgen.Seg `json:"seg"`
+	// allocator dimension: "" = the tracking allocator (Policy; Move: every growing Append/Realloc
+	// relocates the buffer and poisons the old one), "aligned" = mempool.NewAligned(), "std" =
+	// mempool.NewSTD(); applies to the sender and to the receiver
+	Alloc string `json:"alloc,omitempty"`
+	Move  bool   `json:"move,omitempty"`
+	// negotiation outcome and the application's use of Conn.EnableWriteCompression (nil: the
+	// extension is enabled on both sides and negotiated iff Comp, the API is never called)
+	Nego *negoSpec `json:"nego,omitempty"`
+	Seg  wsgen.Seg `json:"seg"`
+}
+
+// negoSpec: compression enabled locally on the sender / the receiver (Upgrader or Options
+// EnableCompression), whether the handshake negotiated permessage-deflate between the two, and
+// what the sending application does with Conn.EnableWriteCompression before its data messages:
+// "" never calls it, "t" calls (true) before every message, "ft" calls (false) then (true) before
+// every message, "toggle" calls (false) before the 1st, 3rd.. and (true) before the 2nd, 4th..
+// message (the idiom: switch it off for an already compressed blob, then on again).
+type negoSpec struct {
+	SndLocal   bool   `json:"snd_local"`
+	RcvLocal   bool   `json:"rcv_local"`
+	Negotiated bool   `json:"negotiated"`
+	API        string `json:"api,omitempty"`
+}
+
+func neg(b bool) int {
+	if b {
+		return 1
+	}
+	return -1
+}
+
+// negotiated: may the wire carry RSV1.
+func (c *caseSpec) negotiated() bool {
+	if c.Nego != nil {
+		return c.Nego.Negotiated
+	}
+	return c.Comp
+}
+
+func (c *caseSpec) sndCfg() wsgen.Cfg {
+	cfg := wsgen.Cfg{Client: c.C2S, Compress: c.Comp, Level: c.Level, F: c.F, Policy: c.Policy, Alloc: c.Alloc, Move: c.Move}
+	if n := c.Nego; n != nil {
+		cfg.Compress, cfg.Negotiated = n.SndLocal, neg(n.Negotiated)
+	}
+	return cfg
+}
+
+func (c *caseSpec) rcvCfg() wsgen.Cfg {
+	cfg := wsgen.Cfg{Client: !c.C2S, Compress: c.Comp, Level: c.Level, F: c.F, RecordCtl: true,
+		OnDataFrame: c.RecvDF, CloseAfterHandler: c.CloseAH, Policy: c.Policy, Alloc: c.Alloc, Move: c.Move}
+	if n := c.Nego; n != nil {
+		cfg.Compress, cfg.Negotiated = n.RcvLocal, neg(n.Negotiated)
+	}
+	return cfg
+}
+
+func (c *caseSpec) allocName() string {
+	switch {
+	case c.Alloc != "":
+		return "mempool:" + c.Alloc
+	case c.Move:
+		return "track+move"
+	}
+	return "track"
 }
 
 func (c *caseSpec) name() string {
@@ -84,6 +147,12 @@ func (c *caseSpec) name() string {
 			s += "/spliced"
 		}
 	}
+	if n := c.Nego; n != nil {
+		s += fmt.Sprintf(" nego(sender-enabled=%v receiver-enabled=%v negotiated=%v api=%q)", n.SndLocal, n.RcvLocal, n.Negotiated, n.API)
+	}
+	if c.Alloc != "" || c.Move {
+		s += " alloc=" + c.allocName()
+	}
 	return s
 }
 
@@ -106,7 +175,7 @@ func payloadOf(m msgSpec, idx int) []byte {
 func build(c *caseSpec) *built {
 	vrand.Reset()
 	b := &built{}
-	snd := wsgen.NewEndpoint(wsgen.Cfg{Client: c.C2S, Compress: c.Comp, Level: c.Level, F: c.F, Policy: c.Policy})
+	snd := wsgen.NewEndpoint(c.sndCfg())
 	type span struct{ lo, hi int }
 	var msgSpans, ctlSpans []span
 	for i, m := range c.Msgs {
@@ -132,6 +201,17 @@ func build(c *caseSpec) *built {
 		}
 		pl := payloadOf(m, i)
 		lo := len(snd.Fake.Writes)
+		if c.Nego != nil {
+			switch c.Nego.API {
+			case "t":
+				snd.C.EnableWriteCompression(true)
+			case "ft":
+				snd.C.EnableWriteCompression(false)
+				snd.C.EnableWriteCompression(true)
+			case "toggle":
+				snd.C.EnableWriteCompression(i%2 == 1)
+			}
+		}
 		if err := snd.C.WriteMessage(websocket.MessageType(m.Type), pl); err != nil {
 			b.encSig = "encoder: write-error|WriteMessage returned " + err.Error()
 			return b
@@ -193,7 +273,7 @@ func build(c *caseSpec) *built {
 			b.maxFrame = len(frames[i].Payload)
 		}
 	}
-	v := wsgen.Judge(frames, wsgen.Rules{Compression: c.Comp, ToServer: c.C2S})
+	v := wsgen.Judge(frames, wsgen.Rules{Compression: c.negotiated(), ToServer: c.C2S})
 	switch {
 	case !v.Legal():
 		b.encSig = fmt.Sprintf("encoder: wire-illegal reason=%s|frame %d of the sender's wire violates RFC 6455 (%s)", v.Reason, v.Offender, v.Reason)
@@ -279,8 +359,7 @@ func onlyKind(ev []wsgen.Event, kinds string) []wsgen.Event {
 
 // feedOnce runs one receiver over one segmentation; returns "" or "signature|description".
 func feedOnce(c *caseSpec, b *built, seg wsgen.Seg) (string, *wsgen.FeedResult) {
-	rcv := wsgen.NewEndpoint(wsgen.Cfg{Client: !c.C2S, Compress: c.Comp, Level: c.Level, F: c.F, RecordCtl: true,
-		OnDataFrame: c.RecvDF, CloseAfterHandler: c.CloseAH, Policy: c.Policy})
+	rcv := wsgen.NewEndpoint(c.rcvCfg())
 	r := rcv.Feed(b.wire.Bytes, seg, nil)
 	if len(r.Panics) > 0 {
 		return "decoder: panic " + wsgen.PanicSig(r.Panics[0]) + "|" + r.Panics[0], r
@@ -501,8 +580,18 @@ func runItem(tier string, c *caseSpec, p *vkit.Part, seqPart bool) {
 	if b.maxFrame > c.F {
 		p.Count("bases_frame_payload_above_F", 1)
 	}
+	if c.Nego != nil {
+		p.Count(fmt.Sprintf("partE_bases sender-enabled=%v negotiated=%v api=%q", c.Nego.SndLocal, c.Nego.Negotiated, c.Nego.API), 1)
+		if rsv1 > 0 {
+			p.Count(fmt.Sprintf("partE_bases_with_compressed_frames sender-enabled=%v negotiated=%v api=%q", c.Nego.SndLocal, c.Nego.Negotiated, c.Nego.API), 1)
+		}
+		if rsv1 > 0 && rsv1 < len(c.Msgs) {
+			p.Count("partE_bases_mixing_compressed_and_plain_messages", 1)
+		}
+	}
 	onePieceSig := ""
 	first := true
+	baseSigs := map[string]bool{}
 	wsgen.EachSeg(b.wire, opt, func(s wsgen.Seg) bool {
 		if s.Kind == "one" && skipOne {
 			return true
@@ -522,6 +611,7 @@ func runItem(tier string, c *caseSpec, p *vkit.Part, seqPart bool) {
 				sig += " seg-dependent"
 			}
 			p.Outcome(sig)
+			baseSigs[sig] = true
 			cc := *c
 			cc.Seg = s
 			p.Report(sig, desc+" ["+c.name()+fmt.Sprintf(" seg=%s%v/%d wire=%dB]", s.Kind, s.Cuts, s.Chunk, len(b.wire.Bytes)), "c12", &cc)
@@ -532,10 +622,127 @@ func runItem(tier string, c *caseSpec, p *vkit.Part, seqPart bool) {
 		}
 		return true
 	})
+	runAllocators(tier, c, b, p, seqPart, baseSigs)
 	h2 := fnv.New64a()
 	h2.Write(b.wire.Bytes)
 	if h2.Sum64() != sum {
 		p.Report("decoder: input-modified", "Parse modified the caller's input slice ["+c.name()+"]", "c12", c)
+	}
+}
+
+// ---------------------------------------------------------------------------------------------
+// the allocator as a dimension
+
+type allocVariant struct {
+	alloc string
+	move  bool
+}
+
+// The base enumeration runs under the tracking allocator (capacity policy of the case; buffers
+// grow in place like the stock pool's). The other values of the dimension:
+var allocVariants = []allocVariant{
+	{alloc: wsgen.AllocAligned}, // mempool.NewAligned(): power-of-two buckets, a growing Append returns a new handle and frees the old one
+	{move: true},                // tracking allocator, exact capacities: every growing Append/Realloc relocates the buffer and poisons the old one
+	{alloc: wsgen.AllocSTD},     // mempool.NewSTD(): plain make/append, Free does nothing
+}
+
+// allocWanted selects the bases that are run under the other allocators as well. Thorough: all.
+// Quick: every sequence / receiver-variant / control-length / negotiation base (parts B-E), and of
+// the single-message matrix (parts A, A2) the sub-matrix compression {off, level 1} x content
+// {ramp, lowcomp}: how buffers are allocated, grown and released does not depend on the level or
+// on the content class beyond "compressible or not". Wires of more than 4096 frames are left to
+// the thorough tier (the receiver is quadratic in the number of frames per call).
+func allocWanted(tier string, c *caseSpec, b *built, seqPart bool) bool {
+	if os.Getenv("VERIF_C12_NOALLOC") != "" || c.Alloc != "" || c.Move {
+		return false
+	}
+	if tier == "thorough" || seqPart {
+		return true
+	}
+	if b.nFrames > 4096 {
+		return false
+	}
+	cl := c.Msgs[0].Class
+	return (!c.Comp || c.Level == 1) && (cl == "ramp" || cl == "lowcomp")
+}
+
+// allocSegs is the segmentation set of the allocator dimension: thorough = the base's own set;
+// quick = one piece, the structural single cuts of the first and last two frames, byte-at-a-time
+// (wires <= 4 KiB) and fixed chunks chosen so that a frame arrives in many reads and its cached
+// prefix has to grow past 32, 64, .. bytes (3, 31) resp. past the 1 KiB / 4 KiB buckets (1021,
+// 4093).
+func allocSegs(tier string, base wsgen.SegOpt, b *built) wsgen.SegOpt {
+	if tier == "thorough" {
+		return base
+	}
+	o := wsgen.SegOpt{AllSingleMax: 0, StructFrames: 2, BytesMax: 4096, Chunks: []int{3, 31, 1021, 4093}}
+	if len(b.wire.Bytes) > 16384 {
+		o.Chunks = []int{1021, 4093}
+	}
+	if b.nFrames > 4096 {
+		o.BytesMax, o.AllSingleMax, o.Chunks = 0, -1, base.Chunks
+	}
+	return o
+}
+
+func runAllocators(tier string, c *caseSpec, b *built, p *vkit.Part, seqPart bool, baseSigs map[string]bool) {
+	if !allocWanted(tier, c, b, seqPart) {
+		return
+	}
+	baseOpt, skipOne := segPolicy(tier, c, b, seqPart)
+	opt := allocSegs(tier, baseOpt, b)
+	p.Count("bases_run_under_other_allocators", 1)
+	for _, av := range allocVariants {
+		cc := *c
+		cc.Alloc, cc.Move = av.alloc, av.move
+		if av.move {
+			cc.Policy = 0
+		}
+		tag := " [allocator " + cc.allocName() + "]"
+		report := func(res string, s *wsgen.Seg) {
+			sig, desc := split(res)
+			if !baseSigs[sig] {
+				sig += tag
+			}
+			p.Outcome(sig)
+			rc := cc
+			where := ""
+			if s != nil {
+				rc.Seg = *s
+				where = fmt.Sprintf(" seg=%s%v/%d wire=%dB", s.Kind, s.Cuts, s.Chunk, len(b.wire.Bytes))
+			}
+			p.Report(sig, desc+" ["+cc.name()+where+"]", "c12", &rc)
+		}
+		// the sender under this allocator: the same wire
+		b2 := build(&cc)
+		p.Count("sender_runs_"+cc.allocName(), 1)
+		switch {
+		case b2.encSig != "":
+			report(b2.encSig, nil)
+			continue
+		case !bytes.Equal(b2.wire.Bytes, b.wire.Bytes):
+			report(fmt.Sprintf("encoder: wire-depends-on-allocator|the sender's wire (%d bytes) differs from the one it writes under the tracking allocator (%d bytes)", len(b2.wire.Bytes), len(b.wire.Bytes)), nil)
+			continue
+		}
+		// the receiver under this allocator
+		wsgen.EachSeg(b.wire, opt, func(s wsgen.Seg) bool {
+			if s.Kind == "one" && skipOne {
+				return true
+			}
+			res, r := feedOnce(&cc, b, s)
+			nt := b.nFrames > 1 || c.Comp || r.Calls > 1 || len(b.wire.Bytes) > 127
+			p.Case(nt, r.States, r.Calls)
+			p.Count("feeds_"+cc.allocName(), 1)
+			if r.MaxCacheIn > 32 && r.Calls > 1 {
+				p.Count("feeds_"+cc.allocName()+"_with_cached_input_above_32B", 1)
+			}
+			if res == "" {
+				p.Outcome("delivered-equal")
+			} else {
+				report(res, &s)
+			}
+			return true
+		})
 	}
 }
 
@@ -702,6 +909,45 @@ func run(tier string, sh *vkit.Shard, p *vkit.Part) {
 			for _, c2s := range []bool{true, false} {
 				for _, ctl := range []string{"ping", "pong"} {
 					item(&caseSpec{C2S: c2s, F: F, Msgs: []msgSpec{{wsgen.OpText, 3, "ramp"}, {wsgen.OpBinary, 3, "ramp"}}, Ctl: ctl, CtlLen: cl}, true)
+				}
+			}
+		}
+	}
+
+	// ---- part E: what the handshake negotiated x what is enabled locally x the application's use
+	// of Conn.EnableWriteCompression. (enabled locally, negotiated) of the sender in {(no,no),
+	// (yes,no), (yes,yes), (no,yes)}; the receiver has it enabled when it was negotiated, enabled or
+	// not when it was not. What may be on the wire is decided by what was NEGOTIATED.
+	{
+		sub := []msgSpec{
+			{wsgen.OpText, 0, "ramp"}, {wsgen.OpBinary, 1, "ramp"}, {wsgen.OpText, 125, "utf8"},
+			{wsgen.OpBinary, 126, "lowcomp"}, {wsgen.OpText, 126, "ramp"}, {wsgen.OpBinary, 251, "zero"},
+		}
+		var seqs [][]msgSpec
+		for i, a := range sub {
+			seqs = append(seqs, []msgSpec{a})
+			for j, b := range sub {
+				if thorough || j == (i+1)%len(sub) || j == (i+3)%len(sub) {
+					seqs = append(seqs, []msgSpec{a, b})
+				}
+				if thorough && j == (i+1)%len(sub) {
+					for _, c := range sub {
+						seqs = append(seqs, []msgSpec{a, b, c})
+					}
+				}
+			}
+		}
+		type ends struct{ snd, rcv, neg bool }
+		for _, e := range []ends{
+			{false, false, false}, {false, true, false}, {true, false, false}, {true, true, false},
+			{true, true, true}, {false, true, true},
+		} {
+			for _, api := range []string{"", "t", "ft", "toggle"} {
+				for _, c2s := range []bool{true, false} {
+					for _, ms := range seqs {
+						item(&caseSpec{C2S: c2s, F: 125, Comp: e.neg, Level: 1, Msgs: ms,
+							Nego: &negoSpec{SndLocal: e.snd, RcvLocal: e.rcv, Negotiated: e.neg, API: api}}, true)
+					}
 				}
 			}
 		}
